@@ -7,7 +7,10 @@ from visions.types.integer import Integer
 
 @Integer.register_relationship(Float, np.ndarray)
 def float_is_integer(series: np.ndarray, state: dict) -> bool:
-    return np.all(np.mod(series[~np.isnan(series)], 1) == 0)
+    values = series[~np.isnan(series)]
+    # float_to_integer casts with astype(int): values outside the int64 range would silently wrap
+    in_range = (values >= -(2.0**63)) & (values < 2.0**63)
+    return bool(np.all(np.mod(values, 1) == 0) and np.all(in_range))
 
 
 # TODO: The array_handle_nulls is actually removing nulls from the result. This is _far_ from ideal but there is no
